@@ -271,10 +271,8 @@ def mon_c04(spec, rec, solver_obj=None):
         # generations
         if spec.get("callback", True) and not any(o[0] in ("setstepmon",) for o in spec["ops"]):
             want = max(0, performed - 1)
-            if solver == "Powell":
-                want = None     # checked through the step monitor below (Finalize duplicates: F2)
             if want is not None and sn["generations"] != want:
-                out.append(("%s/generations-counter" % solver, "generations = %d after %d completed iterations (+ initial evaluation)" % (sn["generations"], max(0, performed - 1)), {"op_index": si}))
+                out.append(("Powell/generations-counter/finalize-appends-record" if (solver == "Powell" and sn["generations"] > want and (any(o[0] in ("finalize", "setpenalty", "setconstraints", "setranges") for o in spec["ops"][:si + 1]) or any(q["ret"] is not None or q["op"][0] == "solve" for q in rec.snaps[:si + 1]))) else "%s/generations-counter" % solver, "generations = %d after %d completed iterations (+ initial evaluation)" % (sn["generations"], max(0, performed - 1)), {"op_index": si}))
                 break
         # energy history
         eh = sn["energy_history"]
